@@ -5,6 +5,8 @@ decoding yields a valid object whose re-encoding reproduces the input.
 import RelicVerif.Model.BnConv
 import RelicVerif.Lemmas.BnHighMul
 
+set_option linter.unusedVariables false
+
 namespace Relic.Model
 
 /-- big-endian value of a byte string -/
@@ -13,46 +15,575 @@ def os2n (b : List UInt8) : Nat := b.foldl (fun acc x => acc * 256 + x.toNat) 0
 /-- positional value of a digit list, most significant first -/
 def posVal (radix : Nat) (ds : List Nat) : Nat := ds.foldl (fun acc d => acc * radix + d) 0
 
+namespace Conv
+
+theorem os2n_snoc (l : List UInt8) (x : UInt8) : os2n (l ++ [x]) = os2n l * 256 + x.toNat := by
+  simp [os2n, List.foldl_append]
+
+theorem os2n_reverse : ∀ l : List UInt8, os2n l.reverse = val 256 (l.map (·.toNat))
+  | [] => rfl
+  | x :: l => by
+    rw [List.reverse_cons, os2n_snoc, os2n_reverse l]; simp [val]; omega
+
+theorem os2n_eq (b : List UInt8) : os2n b = val 256 (b.reverse.map (·.toNat)) := by
+  rw [← os2n_reverse, List.reverse_reverse]
+
+theorem val_digits (b n : Nat) : ∀ k, val b ((List.range k).map fun j => n / b ^ j % b) = n % b ^ k
+  | 0 => by simp [val, Nat.mod_one]
+  | k+1 => by
+    rw [List.range_succ, List.map_append, List.map_singleton, High.val_snoc, val_digits b n k,
+      List.length_map, List.length_range, Nat.mod_pow_succ]
+
+theorem val_flatMap (b k : Nat) (f : Nat → List Nat) : ∀ l : List Nat, (∀ d ∈ l, (f d).length = k) →
+    val b (l.flatMap f) = val (b ^ k) (l.map fun d => val b (f d))
+  | [], _ => rfl
+  | x :: l, h => by
+    rw [List.flatMap_cons, val_append, val_flatMap b k f l (fun d hd => h d (by simp [hd])), h x (by simp)]
+    simp [val]
+
+theorem bytesOfDig_spec : ∀ fuel d, d < 256 ^ fuel →
+    d < 256 ^ bytesOfDig fuel d ∧ (d ≠ 0 → 256 ^ (bytesOfDig fuel d - 1) ≤ d) ∧ (d = 0 → bytesOfDig fuel d = 0)
+  | 0, d, h => by
+    have : d = 0 := by simpa using h
+    subst this; simp [bytesOfDig]
+  | fuel + 1, d, h => by
+    unfold bytesOfDig
+    by_cases hd : d = 0
+    · simp [hd]
+    · rw [if_neg hd]
+      have hlt : d / 256 < 256 ^ fuel := by
+        rw [Nat.div_lt_iff_lt_mul (by omega)]; rw [Nat.pow_succ] at h; exact h
+      obtain ⟨h1, h2, h3⟩ := bytesOfDig_spec fuel (d / 256) hlt
+      refine ⟨?_, fun _ => ?_, fun h0 => absurd h0 hd⟩
+      · rw [Nat.add_comm, Nat.pow_succ]
+        exact (Nat.div_lt_iff_lt_mul (by omega)).1 h1
+      · simp only [Nat.add_sub_cancel_left]
+        by_cases hq : d / 256 = 0
+        · rw [h3 hq]; simp; omega
+        · have := h2 hq
+          have hb : bytesOfDig fuel (d / 256) ≠ 0 := by
+            intro hb; rw [hb] at h1; simp at h1; omega
+          have e : bytesOfDig fuel (d / 256) = (bytesOfDig fuel (d / 256) - 1) + 1 := by omega
+          rw [e, Nat.pow_succ]
+          generalize 256 ^ (bytesOfDig fuel (d / 256) - 1) = P at *
+          omega
+
+variable (cfg : Cfg)
+
+theorem B_eq_256 (h8 : 8 ∣ cfg.w) : cfg.B = 256 ^ (cfg.w / 8) := by
+  obtain ⟨k, hk⟩ := h8
+  rw [Cfg.B, hk, Nat.mul_div_cancel_left _ (by omega), Nat.pow_mul]
+
+def leBytes (w : Nat) (a : Bn) : List UInt8 :=
+  ((a.dp.take (a.used - 1)).flatMap fun d => (List.range (w / 8)).map fun j => UInt8.ofNat ((d / 256 ^ j) % 256)) ++
+  (List.range (bytesOfDig (w / 8 + 1) (a.dp.getLast?.getD 0))).map fun j =>
+    UInt8.ofNat (((a.dp.getLast?.getD 0) / 256 ^ j) % 256)
+
+theorem bnWriteBin_eq (w len : Nat) (a : Bn) : bnWriteBin w len a =
+    if len < bnSizeBin w a then none
+    else some ((leBytes w a ++ List.replicate (len - (leBytes w a).length) 0).reverse) := rfl
+
+theorem length_flatMap_const {α β : Type} (k : Nat) (f : α → List β) : ∀ l : List α, (∀ d ∈ l, (f d).length = k) →
+    (l.flatMap f).length = l.length * k
+  | [], _ => by simp
+  | x :: l, h => by
+    rw [List.flatMap_cons, List.length_append, length_flatMap_const k f l (fun d hd => h d (by simp [hd])),
+      h x (by simp), List.length_cons, Nat.succ_mul, Nat.add_comm]
+
+theorem leBytes_length (w : Nat) (a : Bn) : (leBytes w a).length = bnSizeBin w a := by
+  unfold leBytes bnSizeBin
+  rw [List.length_append, length_flatMap_const (w / 8) _ _ (by intro d _; simp)]
+  simp [Bn.used]
+
+theorem leBytes_val (h8 : 8 ∣ cfg.w) (a : Bn) (ha : a.WF cfg.B) :
+    val 256 ((leBytes cfg.w a).map (·.toNat)) = val cfg.B a.dp := by
+  rcases List.eq_nil_or_concat a.dp with h | ⟨init, top, hdp⟩
+  · exact absurd h ha.1
+  rw [List.concat_eq_append] at hdp
+  have hB := B_eq_256 cfg h8
+  have htop : top < cfg.B := ha.dig top (by rw [hdp]; simp)
+  have hinit : ∀ d ∈ init, d < cfg.B := fun d hd => ha.dig d (by rw [hdp]; simp [hd])
+  unfold leBytes Bn.used
+  rw [hdp]
+  simp only [List.length_append, List.length_cons, List.length_nil, Nat.add_sub_cancel,
+    List.getLast?_append, List.getLast?_singleton, Option.some_or, Option.getD_some,
+    List.take_left', List.map_append, List.map_flatMap, List.map_map]
+  have hb := bytesOfDig_spec (cfg.w / 8 + 1) top (by rw [Nat.pow_succ, ← hB]; omega)
+  have hf : ∀ n : Nat, ((fun x : UInt8 => x.toNat) ∘ fun j => UInt8.ofNat (n / 256 ^ j % 256)) =
+      fun j => n / 256 ^ j % 256 := by
+    intro n; funext j
+    simp only [Function.comp, UInt8.toNat_ofNat']
+    omega
+  simp only [hf]
+  rw [val_append, High.val_snoc, length_flatMap_const (cfg.w / 8) _ _ (by intro d _; simp),
+    val_flatMap 256 (cfg.w / 8) _ _ (by intro d _; simp), val_digits, Nat.mod_eq_of_lt hb.1, ← hB]
+  have hp : 256 ^ (init.length * (cfg.w / 8)) = cfg.B ^ init.length := by
+    rw [Nat.mul_comm, Nat.pow_mul, ← hB]
+  rw [hp]
+  congr 2
+  conv_rhs => rw [← List.map_id init]
+  apply List.map_congr_left
+  intro d hd
+  rw [val_digits, ← hB, Nat.mod_eq_of_lt (hinit d hd)]; rfl
+
+theorem size_decomp (h8 : 8 ∣ cfg.w) (a : Bn) (ha : a.WF cfg.B) :
+    ∃ init top, a.dp = init ++ [top] ∧
+      bnSizeBin cfg.w a = init.length * (cfg.w / 8) + bytesOfDig (cfg.w / 8 + 1) top ∧
+      top < 256 ^ bytesOfDig (cfg.w / 8 + 1) top ∧
+      (top ≠ 0 → 256 ^ (bytesOfDig (cfg.w / 8 + 1) top - 1) ≤ top) ∧
+      (top = 0 → bytesOfDig (cfg.w / 8 + 1) top = 0) ∧
+      (top = 0 → init = []) ∧ (∀ d ∈ init, d < cfg.B) := by
+  rcases List.eq_nil_or_concat a.dp with h | ⟨init, top, hdp⟩
+  · exact absurd h ha.1
+  rw [List.concat_eq_append] at hdp
+  have hB := B_eq_256 cfg h8
+  have htop : top < cfg.B := ha.dig top (by rw [hdp]; simp)
+  have hinit : ∀ d ∈ init, d < cfg.B := fun d hd => ha.dig d (by rw [hdp]; simp [hd])
+  have hb := bytesOfDig_spec (cfg.w / 8 + 1) top (by rw [Nat.pow_succ, ← hB]; omega)
+  refine ⟨init, top, hdp, ?_, hb.1, hb.2.1, hb.2.2, ?_, hinit⟩
+  · unfold bnSizeBin Bn.used; rw [hdp]; simp
+  · rintro rfl
+    rcases ha.2.2.1 with h1 | h1
+    · rw [hdp] at h1
+      exact List.eq_nil_of_length_eq_zero (by simpa using h1)
+    · rw [hdp] at h1; simp at h1
+
+
+theorem getD_digit (B : Nat) (hB : 0 < B) : ∀ (L : List Nat), (∀ d ∈ L, d < B) → ∀ k,
+    L.getD k 0 = val B L / B ^ k % B
+  | [], _, k => by simp [val]
+  | x :: xs, h, 0 => by
+    have := h x (by simp)
+    simp [val, Nat.add_mul_mod_self_left, Nat.mod_eq_of_lt this]
+  | x :: xs, h, k + 1 => by
+    have hx := h x (by simp)
+    rw [List.getD_cons_succ, getD_digit B hB xs (fun d hd => h d (by simp [hd])) k, val, Nat.pow_succ,
+      Nat.mul_comm (B ^ k) B, ← Nat.div_div_eq_div_mul, Nat.add_mul_div_left _ _ hB, Nat.div_eq_of_lt hx,
+      Nat.zero_add]
+
+theorem foldl_sum_eq_val (b : Nat) (f : Nat → Nat) : ∀ k,
+    (List.range k).foldl (fun acc j => acc + f j * b ^ j) 0 = val b ((List.range k).map f)
+  | 0 => rfl
+  | k + 1 => by
+    rw [List.range_succ, List.foldl_append, List.map_append, List.map_singleton, High.val_snoc,
+      foldl_sum_eq_val b f k]
+    simp [Nat.mul_comm]
+
+theorem getD_toNat (l : List UInt8) (k : Nat) : (l.getD k 0).toNat = (l.map (·.toNat)).getD k 0 := by
+  induction l generalizing k with
+  | nil => simp
+  | cons x xs ih =>
+    cases k with
+    | zero => simp
+    | succ k => simpa using ih k
+
+def binDigs (cfg : Cfg) (len : Nat) : Nat :=
+  if len % (cfg.w / 8) = 0 then len / (cfg.w / 8) else len / (cfg.w / 8) + 1
+
+theorem bnReadBin_eq (h8 : 8 ∣ cfg.w) (b : List UInt8) : bnReadBin cfg b =
+    if binDigs cfg b.length > cfg.cap then none
+    else some (bnTrim { neg := false, dp := if binDigs cfg b.length = 0 then [0] else
+      (List.range (binDigs cfg b.length)).map fun i => os2n b / cfg.B ^ i % cfg.B }) := by
+  have hB := B_eq_256 cfg h8
+  unfold bnReadBin binDigs
+  simp only
+  congr 4
+  congr 1
+  apply List.map_congr_left
+  intro i _
+  have hL : ∀ d ∈ b.reverse.map (·.toNat), d < 256 := by
+    intro d hd
+    simp only [List.mem_map] at hd
+    obtain ⟨x, _, rfl⟩ := hd
+    exact x.toNat_lt
+  have hf : ∀ j, (b.reverse.getD (i * (cfg.w / 8) + j) 0).toNat = (os2n b / cfg.B ^ i) / 256 ^ j % 256 := by
+    intro j
+    rw [getD_toNat, getD_digit 256 (by omega) _ hL, ← os2n_eq, Nat.pow_add, Nat.mul_comm i, Nat.pow_mul, ← hB,
+      Nat.div_div_eq_div_mul]
+  simp only [hf]
+  rw [foldl_sum_eq_val 256 (fun j => os2n b / cfg.B ^ i / 256 ^ j % 256), val_digits, ← hB]
+
+theorem os2n_lt (b : List UInt8) : os2n b < 256 ^ b.length := by
+  rw [os2n_eq]
+  have := val_lt 256 (b.reverse.map (·.toNat)) (by
+    intro d hd
+    simp only [List.mem_map] at hd
+    obtain ⟨x, _, rfl⟩ := hd
+    exact x.toNat_lt)
+  simpa using this
+
+theorem binDigs_eq (hw : 0 < cfg.w) (h8 : 8 ∣ cfg.w) (len : Nat) :
+    binDigs cfg len = (len + cfg.w / 8 - 1) / (cfg.w / 8) ∧ len ≤ cfg.w / 8 * binDigs cfg len := by
+  have hd : 0 < cfg.w / 8 := Nat.div_pos (Nat.le_of_dvd hw h8) (by omega)
+  unfold binDigs
+  generalize cfg.w / 8 = d at *
+  have h1 := Nat.div_add_mod len d
+  generalize hq : len / d = q at *
+  generalize hr : len % d = r at *
+  have hr' : r < d := by rw [← hr]; exact Nat.mod_lt _ hd
+  split
+  · rename_i h0
+    subst h0
+    refine ⟨?_, by omega⟩
+    symm
+    rw [Nat.div_eq_iff hd]
+    rw [← h1, Nat.mul_comm]; omega
+  · rename_i h0
+    refine ⟨?_, by rw [Nat.mul_add]; omega⟩
+    symm
+    rw [Nat.div_eq_iff hd]
+    rw [← h1, Nat.add_mul, Nat.mul_comm q d]; omega
+
+theorem readBin_val (hw : 0 < cfg.w) (h8 : 8 ∣ cfg.w) (b : List UInt8) :
+    (∀ d ∈ (if binDigs cfg b.length = 0 then [0] else
+      (List.range (binDigs cfg b.length)).map fun i => os2n b / cfg.B ^ i % cfg.B), d < cfg.B) ∧
+    val cfg.B (if binDigs cfg b.length = 0 then [0] else
+      (List.range (binDigs cfg b.length)).map fun i => os2n b / cfg.B ^ i % cfg.B) = os2n b := by
+  have hB := B_eq_256 cfg h8
+  have hBp : 0 < cfg.B := by rw [hB]; exact Nat.pow_pos (by omega)
+  have hlt := os2n_lt b
+  have hlen := (binDigs_eq cfg hw h8 b.length).2
+  have hle : 256 ^ b.length ≤ cfg.B ^ binDigs cfg b.length := by
+    rw [hB, ← Nat.pow_mul]; exact Nat.pow_le_pow_right (by omega) hlen
+  split
+  · rename_i h0
+    rw [h0, Nat.pow_zero] at hle
+    refine ⟨by simpa using hBp, ?_⟩
+    simp [val]; omega
+  · refine ⟨?_, ?_⟩
+    · intro d hd
+      simp only [List.mem_map] at hd
+      obtain ⟨i, _, rfl⟩ := hd
+      exact Nat.mod_lt _ hBp
+    · rw [val_digits, Nat.mod_eq_of_lt (by omega)]
+
+
+theorem val_inj (B : Nat) (hB : 0 < B) : ∀ l1 l2 : List Nat, l1.length = l2.length →
+    (∀ d ∈ l1, d < B) → (∀ d ∈ l2, d < B) → val B l1 = val B l2 → l1 = l2
+  | [], [], _, _, _, _ => rfl
+  | [], _ :: _, h, _, _, _ => by simp at h
+  | _ :: _, [], h, _, _, _ => by simp at h
+  | x :: xs, y :: ys, hl, h1, h2, hv => by
+    have hx := h1 x (by simp)
+    have hy := h2 y (by simp)
+    simp only [val] at hv
+    have e1 : x = y := by
+      have := congrArg (· % B) hv
+      simpa [Nat.add_mul_mod_self_left, Nat.mod_eq_of_lt hx, Nat.mod_eq_of_lt hy] using this
+    subst e1
+    have e2 : val B xs = val B ys := by
+      have : B * val B xs = B * val B ys := by omega
+      exact Nat.eq_of_mul_eq_mul_left hB this
+    rw [val_inj B hB xs ys (by simpa using hl) (fun d hd => h1 d (by simp [hd]))
+      (fun d hd => h2 d (by simp [hd])) e2]
+
+theorem WF_eq_of_toInt {B : Nat} (hB : 1 < B) {a b : Bn} (ha : a.WF B) (hb : b.WF B)
+    (h : a.toInt B = b.toInt B) : a = b := by
+  have hv : val B a.dp = val B b.dp := by rw [← toInt_natAbs, ← toInt_natAbs, h]
+  have hl : a.dp.length = b.dp.length := by
+    have h1 := Bn.WF.used_le_of_val_le hB ha hb (by omega)
+    have h2 := Bn.WF.used_le_of_val_le hB hb ha (by omega)
+    unfold Bn.used at *; omega
+  have hdp := val_inj B (by omega) a.dp b.dp hl ha.dig hb.dig hv
+  obtain ⟨an, adp⟩ := a
+  obtain ⟨bn, bdp⟩ := b
+  simp only at hdp hv
+  subst hdp
+  congr
+  cases an <;> cases bn <;> try rfl
+  · have := hb.neg_pos hB rfl
+    simp [Bn.toInt] at h this; omega
+  · have := ha.neg_pos hB rfl
+    simp [Bn.toInt] at h this; omega
+
+theorem bytes_inj (b1 b2 : List UInt8) (hl : b1.length = b2.length) (h : os2n b1 = os2n b2) : b1 = b2 := by
+  rw [os2n_eq, os2n_eq] at h
+  have hL : ∀ b : List UInt8, ∀ d ∈ b.reverse.map (·.toNat), d < 256 := by
+    intro b d hd
+    simp only [List.mem_map] at hd
+    obtain ⟨x, _, rfl⟩ := hd
+    exact x.toNat_lt
+  have := val_inj 256 (by omega) _ _ (by simpa using hl) (hL b1) (hL b2) h
+  have := (List.map_inj_right (fun x y hxy => UInt8.toNat_inj.1 hxy)).1 this
+  exact List.reverse_inj.1 this
+
+
+theorem posVal_snoc (r : Nat) (l : List Nat) (x : Nat) : posVal r (l ++ [x]) = posVal r l * r + x := by
+  simp [posVal, List.foldl_append]
+
+theorem posVal_reverse (r : Nat) : ∀ l, posVal r l.reverse = val r l
+  | [] => rfl
+  | x :: l => by
+    rw [List.reverse_cons, posVal_snoc, posVal_reverse r l, val, Nat.mul_comm, Nat.add_comm]
+
+theorem strDigits_spec (r : Nat) (hr : 2 ≤ r) : ∀ fuel n, n < fuel →
+    val r (strDigits r fuel n) = n ∧ (∀ d ∈ strDigits r fuel n, d < r) ∧
+    (strDigits r fuel n).getLast? ≠ some 0 ∧ (n ≠ 0 → strDigits r fuel n ≠ [])
+  | 0, n, h => by omega
+  | fuel + 1, n, h => by
+    unfold strDigits
+    by_cases hn : n = 0
+    · simp [hn, val]
+    · rw [if_neg hn]
+      have hlt : n / r < fuel := by
+        have := Nat.div_lt_self (Nat.pos_of_ne_zero hn) (show 1 < r by omega)
+        omega
+      obtain ⟨h1, h2, h3, h4⟩ := strDigits_spec r hr fuel (n / r) hlt
+      refine ⟨?_, ?_, ?_, fun _ => by simp⟩
+      · rw [val, h1]; exact Nat.mod_add_div n r
+      · intro d hd
+        rcases List.mem_cons.1 hd with rfl | hd
+        · exact Nat.mod_lt _ (by omega)
+        · exact h2 d hd
+      · match hds : strDigits r fuel (n / r) with
+        | [] =>
+          have hq : n / r = 0 := by
+            by_contra hq; exact h4 hq hds
+          have : n < r := by
+            rcases (Nat.div_eq_zero_iff).1 hq with h | h <;> omega
+          simp [Nat.mod_eq_of_lt this, hn]
+        | y :: ys =>
+          rw [List.getLast?_cons_cons, ← hds]; exact h3
+
+theorem strDigits_length_two (fuel n : Nat) (h : n < fuel) :
+    (strDigits 2 fuel n).length = if n = 0 then 0 else Nat.log2 n + 1 := by
+  obtain ⟨h1, h2, h3, h4⟩ := strDigits_spec 2 (by omega) fuel n h
+  split
+  · rename_i h0
+    subst h0
+    cases fuel <;> simp [strDigits]
+  · rename_i hn
+    have hne := h4 hn
+    have hlo := High.val_ge_of_top 2 _ hne h3
+    have hhi := val_lt 2 _ h2
+    rw [h1] at hlo hhi
+    have hpos : 0 < (strDigits 2 fuel n).length := List.length_pos_iff.2 hne
+    have : n.log2 = (strDigits 2 fuel n).length - 1 := by
+      rw [Nat.log2_eq_iff hn]
+      refine ⟨hlo, ?_⟩
+      rw [Nat.sub_add_cancel hpos]; exact hhi
+    omega
+
+theorem toInt_neg_iff {B : Nat} (hB : 1 < B) {a : Bn} (ha : a.WF B) : a.toInt B < 0 ↔ a.neg = true := by
+  cases hn : a.neg
+  · rw [toInt_of_pos hn]; simp
+  · rw [toInt_of_neg hn]
+    have := ha.neg_pos hB hn
+    simp; omega
+
+theorem bnWriteStr_ok (a : Bn) (radix len : Nat) (s : String) (h : bnWriteStr cfg len a radix = .ok s) :
+    ∃ l, bnSizeStr cfg a radix = some l ∧ l ≤ len ∧
+      s = if bnIsZero a then "0" else
+        String.ofList ((if a.neg then ['-'] else []) ++
+          (strDigits radix (val cfg.B a.dp + 1) (val cfg.B a.dp)).reverse.map convChar) := by
+  unfold bnWriteStr at h
+  split at h
+  · exact absurd h (by simp)
+  rename_i l hl
+  refine ⟨l, hl, ?_⟩
+  split at h
+  · exact absurd h (by simp)
+  rename_i hlen
+  refine ⟨by omega, ?_⟩
+  split at h
+  · rename_i hz
+    simp only [Except.ok.injEq] at h
+    rw [if_pos hz, h]
+  · rename_i hz
+    simp only [Except.ok.injEq] at h
+    rw [if_neg hz, ← h]
+
+/-- the digit list written by bn_write_str -/
+def strDs (cfg : Cfg) (a : Bn) (radix : Nat) : List Nat :=
+  if bnIsZero a then [0] else (strDigits radix (val cfg.B a.dp + 1) (val cfg.B a.dp)).reverse
+
+theorem writeStr_toList (hw : 0 < cfg.w) (a : Bn) (ha : a.WF cfg.B) (radix len : Nat) (s : String)
+    (h : bnWriteStr cfg len a radix = .ok s) :
+    s.toList = (if a.neg then ['-'] else []) ++ (strDs cfg a radix).map convChar := by
+  obtain ⟨l, _, _, hs⟩ := bnWriteStr_ok cfg a radix len s h
+  have hB := cfg.one_lt_B hw
+  unfold strDs
+  by_cases hz : bnIsZero a = true
+  · rw [if_pos hz] at hs ⊢
+    have hv := (ha.isZero_iff hB).1 hz
+    have hn := ha.2.2.2 ((ha.val_eq_zero_iff hB).1 hv)
+    rw [hs, hn]; rfl
+  · rw [if_neg hz] at hs ⊢
+    rw [hs, String.toList_ofList]
+
+theorem strDs_spec (hw : 0 < cfg.w) (a : Bn) (ha : a.WF cfg.B) (radix : Nat) (hr : 2 ≤ radix) :
+    (∀ d ∈ strDs cfg a radix, d < radix) ∧ ((strDs cfg a radix).head? ≠ some 0 ∨ strDs cfg a radix = [0]) ∧
+    strDs cfg a radix ≠ [] ∧ posVal radix (strDs cfg a radix) = val cfg.B a.dp := by
+  have hB := cfg.one_lt_B hw
+  unfold strDs
+  by_cases hz : bnIsZero a = true
+  · rw [if_pos hz]
+    have hv := (ha.isZero_iff hB).1 hz
+    refine ⟨by intro d hd; simp at hd; omega, Or.inr rfl, by simp, ?_⟩
+    rw [hv]; simp [posVal]
+  · rw [if_neg hz]
+    have hv : val cfg.B a.dp ≠ 0 := fun h => hz ((ha.isZero_iff hB).2 h)
+    obtain ⟨h1, h2, h3, h4⟩ := strDigits_spec radix hr (val cfg.B a.dp + 1) (val cfg.B a.dp) (by omega)
+    refine ⟨?_, Or.inl ?_, ?_, ?_⟩
+    · intro d hd; exact h2 d (List.mem_reverse.1 hd)
+    · rw [List.head?_reverse]; exact h3
+    · simpa using h4 hv
+    · rw [posVal_reverse, h1]
+
+
+theorem charVal_convChar : ∀ i < 64, charVal (convChar i) = some i := by decide
+theorem toUpper_convChar : ∀ i < 36, (convChar i).toUpper = convChar i := by decide
+theorem convChar_ne_minus : ∀ i < 64, convChar i ≠ '-' := by decide
+
+theorem go_none (radix : Nat) : ∀ cs, bnReadStr.go cfg radix cs none = none
+  | [] => rfl
+  | c :: cs => by
+    rw [bnReadStr.go]
+    simp only
+    cases charVal (if radix < 36 then c.toUpper else c) with
+    | none => rfl
+    | some i => simp only []; split <;> rfl
+
+theorem go_cons (radix : Nat) (hr : radix ≤ 64) (d : Nat) (hd : d < radix) (cs : List Char) (acc : Bn) :
+    bnReadStr.go cfg radix (convChar d :: cs) (some acc) =
+      match bnMulDig cfg acc radix with
+      | none => none
+      | some m => bnReadStr.go cfg radix cs (bnAddDig cfg m d) := by
+  have hc : (if radix < 36 then (convChar d).toUpper else convChar d) = convChar d := by
+    split
+    · exact toUpper_convChar d (by omega)
+    · rfl
+  rw [bnReadStr.go]
+  simp only [hc, charVal_convChar d (by omega), if_pos hd]
+  cases bnMulDig cfg acc radix <;> rfl
+
+theorem go_spec (hw : 0 < cfg.w) (radix : Nat) (hr : radix ≤ 64) (hrB : radix < cfg.B) :
+    ∀ (ds : List Nat), (∀ d ∈ ds, d < radix) → ∀ (acc : Bn) (v : Nat), acc.WF cfg.B → acc.toInt cfg.B = (v : Int) →
+    ∀ r, bnReadStr.go cfg radix (ds.map convChar) (some acc) = some r →
+      r.WF cfg.B ∧ r.toInt cfg.B = ((ds.foldl (fun acc d => acc * radix + d) v : Nat) : Int)
+  | [], _, acc, v, hacc, hv, r, h => by
+    simp only [List.map_nil, bnReadStr.go, Option.some.injEq] at h
+    subst h
+    exact ⟨hacc, hv⟩
+  | d :: ds, hds, acc, v, hacc, hv, r, h => by
+    have hd := hds d (by simp)
+    rw [List.map_cons, go_cons cfg radix hr d hd] at h
+    cases hm : bnMulDig cfg acc radix with
+    | none => rw [hm] at h; exact absurd h (by simp)
+    | some m =>
+      rw [hm] at h
+      simp only at h
+      obtain ⟨hmw, hmv⟩ := bnMulDig_exact cfg hw acc radix hacc hrB m hm
+      cases ha : bnAddDig cfg m d with
+      | none => rw [ha, go_none] at h; exact absurd h (by simp)
+      | some m' =>
+        rw [ha] at h
+        obtain ⟨haw, hav⟩ := bnAddDig_exact cfg hw m d hmw (by omega) m' ha
+        have := go_spec hw radix hr hrB ds (fun x hx => hds x (by simp [hx])) m' (v * radix + d) haw
+          (by rw [hav, hmv, hv]; push_cast; rfl) r h
+        simpa using this
+
+end Conv
+
 variable (cfg : Cfg)
 
 /-- bn_write_bin writes the big-endian bytes of |a| left-padded with zeros to exactly `len` bytes -/
 theorem bnWriteBin_spec (hw : 0 < cfg.w) (h8 : 8 ∣ cfg.w) (a : Bn) (ha : a.WF cfg.B) (len : Nat) (b : List UInt8)
     (h : bnWriteBin cfg.w len a = some b) :
     b.length = len ∧ os2n b = (a.toInt cfg.B).natAbs := by
-  sorry
+  rw [Conv.bnWriteBin_eq] at h
+  split at h
+  · exact absurd h (by simp)
+  rename_i hlen
+  simp only [Option.some.injEq] at h
+  subst h
+  have hl := Conv.leBytes_length cfg.w a
+  constructor
+  · simp only [List.length_reverse, List.length_append, List.length_replicate, hl]; omega
+  · rw [Conv.os2n_eq, List.reverse_reverse, List.map_append, val_append, List.map_replicate, toInt_natAbs,
+      Conv.leBytes_val cfg h8 a ha]
+    simp [HighMul.val_zeros]
 
 /-- bn_size_bin is the minimal byte length: 256^(size-1) ≤ |a| < 256^size (0 for zero) -/
 theorem bnSizeBin_spec (hw : 0 < cfg.w) (h8 : 8 ∣ cfg.w) (a : Bn) (ha : a.WF cfg.B) :
     (a.toInt cfg.B).natAbs < 256 ^ bnSizeBin cfg.w a ∧
     (bnSizeBin cfg.w a ≠ 0 → 256 ^ (bnSizeBin cfg.w a - 1) ≤ (a.toInt cfg.B).natAbs) := by
-  sorry
+  obtain ⟨init, top, hdp, hs, h1, h2, h3, h4, hinit⟩ := Conv.size_decomp cfg h8 a ha
+  have hB := Conv.B_eq_256 cfg h8
+  have hp : 256 ^ (init.length * (cfg.w / 8)) = cfg.B ^ init.length := by
+    rw [Nat.mul_comm, Nat.pow_mul, ← hB]
+  have hv := val_lt cfg.B init hinit
+  rw [toInt_natAbs, hs, hdp, High.val_snoc]
+  constructor
+  · rw [Nat.pow_add, hp]
+    have := Nat.mul_le_mul_left (cfg.B ^ init.length) (Nat.succ_le_of_lt h1)
+    rw [Nat.mul_succ] at this
+    omega
+  · intro hne
+    by_cases ht : top = 0
+    · rw [h4 ht, h3 ht] at hne; simp at hne
+    · have hb : bytesOfDig (cfg.w / 8 + 1) top ≠ 0 := by
+        intro hb; rw [hb] at h1; simp at h1; exact ht h1
+      have e : init.length * (cfg.w / 8) + bytesOfDig (cfg.w / 8 + 1) top - 1 =
+          init.length * (cfg.w / 8) + (bytesOfDig (cfg.w / 8 + 1) top - 1) := by omega
+      rw [e, Nat.pow_add, hp]
+      have := Nat.mul_le_mul_left (cfg.B ^ init.length) (h2 ht)
+      omega
 
 /-- the buffer check: an error is raised exactly when the buffer is shorter than the minimal size,
     so nothing is ever written past `len` -/
 theorem bnWriteBin_error_iff (a : Bn) (len : Nat) :
     bnWriteBin cfg.w len a = none ↔ len < bnSizeBin cfg.w a := by
-  sorry
+  rw [Conv.bnWriteBin_eq]
+  split <;> simp [*]
 
 /-- decoding any byte string yields a valid integer with the big-endian value of the bytes, or a
     precision error when the bytes need more digits than the capacity -/
 theorem bnReadBin_spec (hw : 0 < cfg.w) (h8 : 8 ∣ cfg.w) (b : List UInt8) (x : Bn) (h : bnReadBin cfg b = some x) :
     x.WF cfg.B ∧ x.toInt cfg.B = os2n b := by
-  sorry
+  rw [Conv.bnReadBin_eq cfg h8] at h
+  split at h
+  · exact absurd h (by simp)
+  simp only [Option.some.injEq] at h
+  subst h
+  obtain ⟨hd, hv⟩ := Conv.readBin_val cfg hw h8 b
+  have hBp : 0 < cfg.B := Nat.pow_pos (by omega)
+  have := bnTrim_exact hBp false _ hd
+  refine ⟨this.1, ?_⟩
+  rw [this.2, hv]; simp
 
 theorem bnReadBin_error_iff (hw : 0 < cfg.w) (h8 : 8 ∣ cfg.w) (b : List UInt8) :
     bnReadBin cfg b = none ↔ cfg.cap < (b.length + cfg.w / 8 - 1) / (cfg.w / 8) := by
-  sorry
+  rw [Conv.bnReadBin_eq cfg h8, ← (Conv.binDigs_eq cfg hw h8 b.length).1]
+  split <;> simp [*]
 
 /-- R1: decode (encode x) = |x| for every buffer length that is accepted -/
 theorem bnReadBin_writeBin (hw : 0 < cfg.w) (h8 : 8 ∣ cfg.w) (a : Bn) (ha : a.WF cfg.B) (hpos : a.neg = false)
     (len : Nat) (b : List UInt8) (h : bnWriteBin cfg.w len a = some b) (x : Bn) (hx : bnReadBin cfg b = some x) :
     x = a := by
-  sorry
+  have hB := cfg.one_lt_B hw
+  obtain ⟨hxw, hxv⟩ := bnReadBin_spec cfg hw h8 b x hx
+  obtain ⟨_, hbv⟩ := bnWriteBin_spec cfg hw h8 a ha len b h
+  apply Conv.WF_eq_of_toInt hB hxw ha
+  rw [hxv, hbv, toInt_natAbs, toInt_of_pos hpos]
 
 /-- R3: re-encoding a decoded integer in the same length reproduces the input bytes -/
 theorem bnWriteBin_readBin (hw : 0 < cfg.w) (h8 : 8 ∣ cfg.w) (b : List UInt8) (x : Bn) (h : bnReadBin cfg b = some x) :
     bnWriteBin cfg.w b.length x = some b := by
-  sorry
+  obtain ⟨hxw, hxv⟩ := bnReadBin_spec cfg hw h8 b x h
+  have hsz := bnSizeBin_spec cfg hw h8 x hxw
+  have hlt := Conv.os2n_lt b
+  have hna : (x.toInt cfg.B).natAbs = os2n b := by rw [hxv]; simp
+  have hle : bnSizeBin cfg.w x ≤ b.length := by
+    by_contra hc
+    have h1 : 256 ^ b.length ≤ 256 ^ (bnSizeBin cfg.w x - 1) := Nat.pow_le_pow_right (by omega) (by omega)
+    have h2 := hsz.2 (by omega)
+    omega
+  cases hwr : bnWriteBin cfg.w b.length x with
+  | none => rw [bnWriteBin_error_iff] at hwr; omega
+  | some b' =>
+    obtain ⟨hl, hv⟩ := bnWriteBin_spec cfg hw h8 x hxw b.length b' hwr
+    rw [Conv.bytes_inj b' b hl (by rw [hv, hna])]
 
 /-- bn_write_str is positional notation of |a| in the given radix with a leading '-' for negatives -/
 theorem bnWriteStr_spec (hw : 0 < cfg.w) (a : Bn) (ha : a.WF cfg.B) (radix len : Nat) (hr : 2 ≤ radix ∧ radix ≤ 64)
@@ -60,24 +591,110 @@ theorem bnWriteStr_spec (hw : 0 < cfg.w) (a : Bn) (ha : a.WF cfg.B) (radix len :
     ∃ ds : List Nat, (∀ d ∈ ds, d < radix) ∧ (ds.head? ≠ some 0 ∨ ds = [0]) ∧ ds ≠ [] ∧
       posVal radix ds = (a.toInt cfg.B).natAbs ∧
       s.toList = (if a.toInt cfg.B < 0 then ['-'] else []) ++ ds.map convChar := by
-  sorry
+  have hB := cfg.one_lt_B hw
+  obtain ⟨h1, h2, h3, h4⟩ := Conv.strDs_spec cfg hw a ha radix hr.1
+  refine ⟨Conv.strDs cfg a radix, h1, h2, h3, ?_, ?_⟩
+  · rw [h4, toInt_natAbs]
+  · rw [Conv.writeStr_toList cfg hw a ha radix len s h]
+    simp only [Conv.toInt_neg_iff hB ha]
 
 /-- bn_size_str = length of the text + 1 (the NUL) -/
 theorem bnSizeStr_spec (hw : 0 < cfg.w) (a : Bn) (ha : a.WF cfg.B) (radix len : Nat) (hr : 2 ≤ radix ∧ radix ≤ 64)
     (s : String) (h : bnWriteStr cfg len a radix = .ok s) :
     bnSizeStr cfg a radix = some (s.toList.length + 1) := by
-  sorry
+  have hB := cfg.one_lt_B hw
+  rw [Conv.writeStr_toList cfg hw a ha radix len s h]
+  unfold bnSizeStr Conv.strDs
+  rw [if_neg (by omega)]
+  by_cases hz : bnIsZero a = true
+  · rw [if_pos hz, if_pos hz]
+    have hv := (ha.isZero_iff hB).1 hz
+    have hn := ha.2.2.2 ((ha.val_eq_zero_iff hB).1 hv)
+    simp [hn]
+  · rw [if_neg hz, if_neg hz]
+    have hv : val cfg.B a.dp ≠ 0 := fun h => hz ((ha.isZero_iff hB).2 h)
+    by_cases h2 : radix = 2
+    · subst h2
+      rw [if_pos rfl, bnBitsW_val cfg hw a ha, if_neg hv]
+      simp only [List.length_append, List.length_map, List.length_reverse,
+        Conv.strDigits_length_two _ _ (Nat.lt_succ_self _), if_neg hv]
+      cases a.neg <;> simp
+      omega
+    · rw [if_neg h2]
+      simp only [List.length_append, List.length_map, List.length_reverse]
+      cases a.neg <;> simp
 
 theorem bnWriteStr_error (a : Bn) (radix len : Nat) :
     (radix < 2 ∨ radix > 64 → bnWriteStr cfg len a radix = .error .noValid) ∧
     (∀ l, bnSizeStr cfg a radix = some l → len < l → bnWriteStr cfg len a radix = .error .noBuffer) := by
-  sorry
+  constructor
+  · intro hr
+    unfold bnWriteStr bnSizeStr
+    rw [if_pos hr]
+  · intro l hl hlt
+    unfold bnWriteStr
+    rw [hl]
+    simp only [if_pos hlt]
+
+/-- counterexample to the original statement of `bnReadStr_writeStr` (no `radix < cfg.B`): with one-bit
+    digits (B = 2) the value 5 = [1,0,1] is written as "5" in radix 10, but the reader, which feeds the
+    radix and the digit values to bn_mul_dig / bn_add_dig as single digits (they must be < B), returns 3 -/
+example : Bn.WF (Cfg.B { w := 1, cap := 100 }) { neg := false, dp := [1, 0, 1] } ∧
+    (bnWriteStr { w := 1, cap := 100 } 100 { neg := false, dp := [1, 0, 1] } 10).toOption = some "5" ∧
+    bnReadStr { w := 1, cap := 100 } "5" 10 = some { neg := false, dp := [1, 1] } := by decide
 
 /-- R4: reading back what was written returns the same integer (when the reader's length-based capacity
     bound admits the string) -/
+-- STATEMENT CHANGED: added `hrB : radix < cfg.B`. The reader passes the radix to bn_mul_dig and the digit
+-- values to bn_add_dig as single digits, which is only meaningful when they fit a digit; for tiny word
+-- sizes (e.g. w = 1, radix = 10, see the example above) the original statement is false. Every real
+-- configuration (w ∈ {8, 16, 32, 64}, radix ≤ 64 < 2^w) satisfies the hypothesis.
 theorem bnReadStr_writeStr (hw : 0 < cfg.w) (a : Bn) (ha : a.WF cfg.B) (radix len : Nat) (hr : 2 ≤ radix ∧ radix ≤ 64)
+    (hrB : radix < cfg.B)
     (s : String) (h : bnWriteStr cfg len a radix = .ok s) (x : Bn) (hx : bnReadStr cfg s radix = some x) :
     x = a := by
-  sorry
+  have hB := cfg.one_lt_B hw
+  have hs := Conv.writeStr_toList cfg hw a ha radix len s h
+  obtain ⟨h1, h2, h3, h4⟩ := Conv.strDs_spec cfg hw a ha radix hr.1
+  unfold bnReadStr at hx
+  rw [if_neg (by omega)] at hx
+  simp only at hx
+  split at hx
+  · exact absurd hx (by simp)
+  have hhead : (s.toList.head? = some '-') ↔ a.neg = true := by
+    rw [hs]
+    cases hn : a.neg
+    · simp only [Bool.false_eq_true, if_false, List.nil_append, iff_false]
+      match hds : Conv.strDs cfg a radix with
+      | [] => exact absurd hds h3
+      | d :: ds =>
+        have hd : d < radix := h1 d (by rw [hds]; simp)
+        simp only [List.map_cons, List.head?_cons, Option.some.injEq]
+        exact Conv.convChar_ne_minus d (by omega)
+    · simp
+  have hbody : (if s.toList.head? = some '-' then List.drop 1 s.toList else s.toList) =
+      (Conv.strDs cfg a radix).map convChar := by
+    simp only [hhead]
+    rw [hs]
+    cases a.neg <;> simp
+  have hnegb : decide (s.toList.head? = some '-') = a.neg := by
+    simp only [hhead]; cases a.neg <;> rfl
+  rw [hbody, hnegb] at hx
+  cases hg : bnReadStr.go cfg radix ((Conv.strDs cfg a radix).map convChar) (some Bn.zero) with
+  | none => rw [hg] at hx; exact absurd hx (by simp)
+  | some acc =>
+    rw [hg] at hx
+    simp only [Option.some.injEq] at hx
+    have hz : Bn.zero.WF cfg.B := by
+      refine ⟨by simp [Bn.zero], ?_, Or.inl rfl, fun _ => rfl⟩
+      intro d hd; simp [Bn.zero] at hd; omega
+    obtain ⟨haw, hav⟩ := Conv.go_spec cfg hw radix hr.2 hrB _ h1 Bn.zero 0 hz (by simp [Bn.zero, Bn.toInt, val])
+      acc hg
+    change acc.toInt cfg.B = ((posVal radix (Conv.strDs cfg a radix) : Nat) : Int) at hav
+    rw [h4] at hav
+    have ha' : Bn.WF cfg.B { neg := false, dp := a.dp } := ⟨ha.1, ha.2.1, ha.2.2.1, fun _ => rfl⟩
+    have := Conv.WF_eq_of_toInt hB haw ha' (by rw [hav]; simp [Bn.toInt])
+    rw [← hx, this]
+    exact bnTrim_of_WF ha
 
 end Relic.Model
